@@ -290,6 +290,30 @@ def quiet():
     return rpy
 
 
+class CallTimeout(Exception):
+    pass
+
+
+def exc_class_timed(secs, fn, *a, **kw):
+    """exc_class with a wall-clock limit (main thread only): a call that does not return within
+    `secs` seconds is reported as ('rej', 'Timeout')."""
+    import signal
+
+    def _h(*_):
+        raise CallTimeout()
+    old = signal.signal(signal.SIGALRM, _h)
+    signal.setitimer(signal.ITIMER_REAL, secs)
+    try:
+        return ("ok", fn(*a, **kw))
+    except CallTimeout:
+        return ("rej", f"Timeout(no result within {secs}s)")
+    except Exception as e:  # noqa
+        return ("rej", type(e).__name__)
+    finally:
+        signal.setitimer(signal.ITIMER_REAL, 0)
+        signal.signal(signal.SIGALRM, old)
+
+
 def exc_class(fn, *a, **kw):
     """Run fn; return ('ok', value) or ('rej', ExceptionName). Rejections are compared as
     accepted / rejected only (DESIGN §4.1)."""
